@@ -101,6 +101,11 @@ class Sym:
                 if ka != "scal" or kb != "scal":
                     raise Untranslatable("np.maximum of non-scalars")
                 return ("scal", f"({'max' if f.attr == 'maximum' else 'min'} {a} {b})")
+            if _is_np(f, "clip") and len(node.args) == 3:
+                (ka, a), (kl, lo), (kh, hi) = (self.ev(x) for x in node.args)
+                if (ka, kl, kh) != ("scal", "scal", "scal"):
+                    raise Untranslatable("np.clip of non-scalars")
+                return ("scal", f"(min (max {a} {lo}) {hi})")
             if (_is_np(f, "sum") or _is_np(f, "count_nonzero")) and len(node.args) == 1:
                 k, t = self.ev(node.args[0])
                 if k == "belem":
